@@ -24,6 +24,8 @@ type GenOpts struct {
 	ServiceMix bool
 	// SortedRows keeps stop_times and shapes rows grouped by trip/shape in ascending sequence.
 	SortedRows bool
+	// GapDays lets dates fall on days whose local midnight does not exist in the agency zone (callers must compare through ReconcileGaps).
+	GapDays bool
 }
 
 func DefaultGenOpts() GenOpts {
@@ -75,7 +77,7 @@ var texts = []string{"", "", "Main St", "a,b", "say \"hi\"", "line1\nline2", "ZÃ
 func genText(t *rapid.T, label string) string { return rapid.SampledFrom(texts).Draw(t, label) }
 
 // AgencyZones are agency_timezone values: loadable, and unknown names (UTC fallback).
-var AgencyZones = []string{"America/New_York", "Europe/London", "Australia/Lord_Howe", "Asia/Kathmandu", "America/Havana", "America/Sao_Paulo", "UTC", "Etc/GMT+5", "Asia/Tokyo", "d", "Mars/Olympus", "America/New York"}
+var AgencyZones = []string{"America/New_York", "Europe/London", "Australia/Lord_Howe", "Asia/Kathmandu", "America/Havana", "America/Sao_Paulo", "America/Santiago", "Africa/Cairo", "UTC", "Etc/GMT+5", "Asia/Tokyo", "d", "Mars/Olympus", "America/New York"}
 
 // GenTime draws a GTFS time with its spelling.
 func GenTime(t *rapid.T, label string) TimeVal {
@@ -175,8 +177,27 @@ func genEnum(t *rapid.T, label string, vals []int, explicit bool) int {
 	return rapid.SampledFrom(vals).Draw(t, label)
 }
 
+var gapCache = map[string][]Date{}
+
+// GapDays lists the civil dates 2010-2025 on which loc has no local midnight.
+func GapDays(loc *time.Location) []Date {
+	if d, ok := gapCache[loc.String()]; ok {
+		return d
+	}
+	var out []Date
+	for d := time.Date(2010, 1, 1, 12, 0, 0, 0, time.UTC); d.Year() < 2026; d = d.AddDate(0, 0, 1) {
+		t := time.Date(d.Year(), d.Month(), d.Day(), 0, 0, 0, 0, loc)
+		if t.Hour() != 0 || t.Day() != d.Day() {
+			out = append(out, Date{d.Year(), int(d.Month()), d.Day()})
+		}
+	}
+	gapCache[loc.String()] = out
+	return out
+}
+
 // GenInfo reports structural facts about a generated feed.
 type GenInfo struct {
+	GapDates         int
 	MovedDates       int
 	InterleavedTrips bool
 	OutOfOrderTrip   bool
@@ -208,6 +229,17 @@ func GenFeed(t *rapid.T, o GenOpts) (*Feed, GenInfo) {
 	}
 	info.MultiAgency = nA > 1
 	loc := FeedLocation(f)
+	gaps := []Date(nil)
+	if o.GapDays {
+		gaps = GapDays(loc)
+	}
+	genDate := func(label string) (Date, bool) {
+		if len(gaps) > 0 && rapid.IntRange(0, 2).Draw(t, label+"Gap") == 0 {
+			info.GapDates++
+			return gaps[rapid.IntRange(0, len(gaps)-1).Draw(t, label+"GapDay")], false
+		}
+		return GenDate(t, label, loc)
+	}
 	// routes
 	nR := rapid.IntRange(1, o.MaxRoutes).Draw(t, "nRoutes")
 	for i := 0; i < nR; i++ {
@@ -310,11 +342,11 @@ func GenFeed(t *rapid.T, o GenOpts) (*Feed, GenInfo) {
 				c.Days[d] = rapid.IntRange(0, 1).Draw(t, "day")
 			}
 			var mv bool
-			c.Start, mv = GenDate(t, "calStart", loc)
+			c.Start, mv = genDate("calStart")
 			if mv {
 				info.MovedDates++
 			}
-			c.End, mv = GenDate(t, "calEnd", loc)
+			c.End, mv = genDate("calEnd")
 			if mv {
 				info.MovedDates++
 			}
@@ -328,7 +360,7 @@ func GenFeed(t *rapid.T, o GenOpts) (*Feed, GenInfo) {
 			n := rapid.IntRange(1, 4).Draw(t, "nExceptions")
 			valid := false
 			for j := 0; j < n; j++ {
-				dt, mv := GenDate(t, "exDate", loc)
+				dt, mv := genDate("exDate")
 				if mv {
 					info.MovedDates++
 				}
@@ -559,6 +591,9 @@ func GenPresentation(t *rapid.T, ts Tables) (Presentation, int) {
 		}
 		fp.Store = rapid.Bool().Draw(t, "store")
 		fp.OmitIfEmpty = rapid.Bool().Draw(t, "omitIfEmpty")
+		if OptionalFiles[tb.Name] && len(tb.Rows) == 0 && !fp.OmitIfEmpty {
+			fp.ZeroBytes = rapid.IntRange(0, 2).Draw(t, "zeroBytes") == 0
+		}
 		p.Files[tb.Name] = fp
 		if !(fp.OmitIfEmpty && OptionalFiles[tb.Name] && len(tb.Rows) == 0) {
 			present++
